@@ -172,21 +172,25 @@ def octCloseRaw (R : Rnd) (n : Nat) (m : Mat) : Option Mat :=
   let o : OctM n := OctM.ofMat n m
   if OctM.strongClosureEmpty R.up o then none else some (OctM.strongClosure R.up o).e
 
-/-- the branch of `bounded_affine_image` through an additional dimension (`:6818-6839`): `lb_expr` is
-`±denominator*var + b` -/
-def octBoundedExtraDim (R : Rnd) (n vid : Nat) (el : Nat → Int) (bl : Int) (eu : Nat → Int) (bu : Int)
-    (den : Int) (m : Mat) : Option Mat :=
+/-- first half of the branch of `bounded_affine_image` through an additional dimension (`:6821-6828`):
+`add_space_dimensions_and_embed(1)`, `affine_image(new_var, lb_expr, denominator)`, `strong_closure_assign()`;
+the matrix (of space dimension `n + 1`) on which the upper bound is then applied -/
+def octBoundedExtraMid (R : Rnd) (n : Nat) (el : Nat → Int) (bl : Int) (den : Int) (m : Mat) : Option Mat :=
   -- `add_space_dimensions_and_embed(1)`, `new_var = Variable(n)`
   let m := octEmbedOne n m
   -- `affine_image(new_var, lb_expr, denominator)`: the closure at its head is a no-op; case
   -- `w_id != var_id`: `forget_all_octagonal_constraints(new_var)`, two `add_octagonal_constraint`, then
   -- `incremental_strong_closure_assign(new_var)` — which returns at once when neither constraint was
-  -- stored (both quotients `+∞`: the shape is still marked strongly closed)
-  let m1 : Option Mat :=
-    if (divRoundUp R bl den).isPinf ∧ (divRoundUp R bl (- den)).isPinf then some (octForgetAll (n + 1) n m)
-    else octAffineImageCore R (n + 1) n el bl den m
-  -- `strong_closure_assign()`: the shape is marked strongly closed (or empty) here: a no-op
-  m1.bind fun m1 =>
+  -- stored (both quotients `+∞`: the shape is still marked strongly closed).
+  -- `strong_closure_assign()`: the shape is marked strongly closed (or empty) afterwards: a no-op
+  if (divRoundUp R bl den).isPinf ∧ (divRoundUp R bl (- den)).isPinf then some (octForgetAll (n + 1) n m)
+  else octAffineImageCore R (n + 1) n el bl den m
+
+/-- the branch of `bounded_affine_image` through an additional dimension (`:6818-6839`): `lb_expr` is
+`±denominator*var + b` -/
+def octBoundedExtraDim (R : Rnd) (n vid : Nat) (el : Nat → Int) (bl : Int) (eu : Nat → Int) (bu : Int)
+    (den : Int) (m : Mat) : Option Mat :=
+  (octBoundedExtraMid R n el bl den m).bind fun m1 =>
     -- `generalized_affine_image(var, LESS_OR_EQUAL, ub_expr, denominator)`: closure at its head a no-op
     (octGenAffineImageCoreF R (n + 1) vid true eu bu den m1).bind fun mf =>
       -- `refine_no_check(var >= new_var)`
